@@ -15,17 +15,20 @@ use std::io::BufRead;
 fn pos(n: i64, c: i64) -> (u32, i32, i32) {
     if c <= n {
         (0, c as i32, 1)
-    } else {
+    } else if c == n + 1 {
         (1, 1, 1)
+    } else {
+        (0, 1, (c - n) as i32) // B1, C1
     }
 }
 fn addr(n: i64, host: i64, a: i64) -> String {
-    let host_sheet = if host <= n { 0 } else { 1 };
-    let (s, r, _) = pos(n, a);
+    let host_sheet = pos(n, host).0;
+    let (s, r, col) = pos(n, a);
+    let letter = ["A", "B", "C"][(col - 1) as usize];
     if s == host_sheet {
-        format!("A{r}")
+        format!("{letter}{r}")
     } else {
-        format!("Sheet{}!A{r}", s + 1)
+        format!("Sheet{}!{letter}{r}", s + 1)
     }
 }
 fn text(n: i64, host: i64, x: &Value) -> Option<String> {
@@ -38,6 +41,7 @@ fn text(n: i64, host: i64, x: &Value) -> Option<String> {
         "sum" => format!("=SUM(Sheet1!A1:A{n})"),
         "if" => format!("=IF({}>0,{},{})", addr(n, host, c), addr(n, host, a), addr(n, host, b)),
         "seq" => format!("=SEQUENCE({})", addr(n, host, a)),
+        "seqh" => format!("=SEQUENCE(1,{})", addr(n, host, a)),
         other => format!("?{other}"),
     })
 }
@@ -99,7 +103,7 @@ fn fresh() -> Result<UserModel<'static>, String> {
 pub fn run(path: &str, out_dir: &str, n: i64) -> Result<Value, String> {
     let mut rep = Report::new(out_dir)?;
     let f = std::fs::File::open(path).map_err(|e| e.to_string())?;
-    let cells: Vec<i64> = (1..=n + 1).collect();
+    let cells: Vec<i64> = (1..=n + 3).collect();
     let mut variants_run = 0usize;
     for line in std::io::BufReader::new(f).lines() {
         let line = line.map_err(|e| e.to_string())?;
@@ -119,7 +123,9 @@ pub fn run(path: &str, out_dir: &str, n: i64) -> Result<Value, String> {
         for st in &steps {
             let c = st["c"].as_i64().unwrap_or(1);
             let txt = text(n, c, &st["x"]).unwrap_or_else(|| "(clear)".to_string());
-            program.push(json!({"cell": if c <= n { format!("Sheet1!A{c}") } else { "Sheet2!A1".to_string() }, "text": txt}));
+            let (ps, pr, pc) = pos(n, c);
+            let cell_name = format!("Sheet{}!{}{}", ps + 1, ["A", "B", "C"][(pc - 1) as usize], pr);
+            program.push(json!({"cell": cell_name, "text": txt}));
             content.insert(c, st["x"].clone());
             let kind = st["x"]["k"].as_str().unwrap_or("").to_string();
             if let Err(e) = set(&mut um, n, c, &st["x"]) {
@@ -139,7 +145,7 @@ pub fn run(path: &str, out_dir: &str, n: i64) -> Result<Value, String> {
                     }
                     Some(false) => {
                         // a wrong value in a spill area or of a spill anchor is C31's business, any other C05's
-                        let spill = st["owner"][(d - 1) as usize].as_i64().unwrap_or(0) != 0 || want["e"] == "SPILL" || got[1] == "#SPILL!" || content.get(&d).map(|x| x["k"] == "seq").unwrap_or(false) || owner(&um, n, d) != 0;
+                        let spill = st["owner"][(d - 1) as usize].as_i64().unwrap_or(0) != 0 || want["e"] == "SPILL" || got[1] == "#SPILL!" || content.get(&d).map(|x| x["k"] == "seq" || x["k"] == "seqh").unwrap_or(false) || owner(&um, n, d) != 0;
                         let prop = if spill { "C31" } else { "C05" };
                         let why = format!("want-{}{}-got-{}", want["t"].as_str().unwrap_or(""), want["e"].as_str().unwrap_or(""), if got[0] == "e" { got[1].as_str().unwrap_or("").to_string() } else { got[0].as_str().unwrap_or("").to_string() });
                         rep.mismatch(prop, &why, &kind, json!({"program": program, "cell": d}), format!("cell {d} shows {got}, the specification demands {want}"));
@@ -201,7 +207,7 @@ pub fn run(path: &str, out_dir: &str, n: i64) -> Result<Value, String> {
                 let twice: Vec<Value> = cells.iter().map(|&d| shown(&v, n, d)).collect();
                 rep.n_checks += 2;
                 let final_kinds: Vec<String> = content.values().map(|x| x["k"].as_str().unwrap_or("").to_string()).filter(|k| k != "empty" && k != "num").collect();
-                let subject = if final_kinds.iter().any(|k| k == "seq") { "with-spill" } else if final_kinds.is_empty() { "plain" } else { "formulas" };
+                let subject = if final_kinds.iter().any(|k| k == "seq" || k == "seqh") { "with-spill" } else if final_kinds.is_empty() { "plain" } else { "formulas" };
                 if once != twice {
                     rep.mismatch("C07", "second-evaluation-differs", subject, json!({"program": program, "order": name, "mode": mode}), format!("{once:?} then {twice:?}"));
                 } else if once != reference {
